@@ -24,8 +24,8 @@ Dom(f) ==
     [] f = "sbi"    -> {"ok", "absent", "port0"}
     [] f = "scheme" -> {"http", "https", "ftp", "empty"}
     [] f = "sbitls" -> {"present", "absent"}
-    [] f = "rf"     -> {"ok", "name", "absent", "notls", "port0", "port65536", "nohost"}
-    [] f = "abmf"   -> {"ok", "name", "absent", "notls", "port0", "port65536", "nohost"}
+    [] f = "rf"     -> {"ok", "name", "badname", "absent", "notls", "port0", "port65536", "nohost"}
+    [] f = "abmf"   -> {"ok", "name", "badname", "absent", "notls", "port0", "port65536", "nohost"}
     [] f = "cgf"    -> {"ok", "absent", "enabled"}
     [] f = "mongo"  -> {"ok", "absent", "nourl"}
     [] f = "svc"    -> {"one", "three", "unknown", "empty", "dup", "case"}
@@ -37,7 +37,7 @@ Cfgs == [info : Dom("info"), logger : Dom("logger"), name : Dom("name"), sbi : D
          svc : Dom("svc"), nrf : Dom("nrf")]
 Dist(c) == Cardinality({i \in 1..Len(Fields) : c[Fields[i]] # Baseline[Fields[i]]})
 
-DiamOK(v) == v \in {"ok", "name"} \/ (DEV_TlsOptional /\ v = "notls")    \* "name": hostIPv4 given as a host name
+DiamOK(v) == v \in {"ok", "name", "badname"} \/ (DEV_TlsOptional /\ v = "notls")    \* "name": hostIPv4 given as a host name
 Valid(c) ==
   /\ c.info = "ok" /\ c.logger = "ok" /\ c.name = "ok" /\ c.nrf = "ok" /\ c.mongo = "ok"
   /\ c.sbi = "ok" /\ c.scheme \in {"http", "https"}
